@@ -84,7 +84,9 @@ pub fn c01(ctx: &mut Ctx, t: &Term) {
     );
   }
   let mut nontrivial = false;
-  for columns in [true, false] {
+  // a CachedSource answers the second request from its cache (replay over rope()): ask twice
+  let rounds = if has_cached(t) { 2 } else { 1 };
+  for (_round, columns) in (0..rounds).flat_map(|r| [(r, true), (r, false)]) {
     match obs.stream(columns, false) {
       Err(e) => report_panic(ctx, t, &format!("stream(columns={columns})"), &e),
       Ok(s) => {
@@ -139,7 +141,8 @@ pub fn c02(ctx: &mut Ctx, t: &Term) {
   };
   let (pos, end) = model::positions(&text);
   let mut nontrivial = false;
-  for columns in [true, false] {
+  let rounds = if has_cached(t) { 2 } else { 1 };
+  for (_round, columns) in (0..rounds).flat_map(|r| [(r, true), (r, false)]) {
     // normal mode
     match obs.stream(columns, false) {
       Err(e) => report_panic(ctx, t, &format!("stream({columns},normal)"), &e),
@@ -246,6 +249,10 @@ fn attr4(a: &Option<Attr>) -> Option<(String, u32, u32, Option<String>)> {
 /// is filled, and ReplaceSource refines columns per chunk: the object's stream then
 /// depends on what was called before. map() and stream are therefore compared in
 /// the same cache state: cold (a fresh object for each) and warm (all caches filled).
+pub fn has_cached(t: &Term) -> bool {
+  t.any(&|x| matches!(x, Term::Cached(_)))
+}
+
 pub fn cached_under_replace(t: &Term) -> bool {
   t.any(&|x| match x {
     Term::Replace(i, r) if !r.is_empty() => i.any(&|y| matches!(y, Term::Cached(_))),
@@ -795,7 +802,8 @@ pub fn c11(ctx: &mut Ctx, t: &Term) {
   };
   let (_pos, end) = model::positions(&text);
   let mut nontrivial = false;
-  for columns in [true, false] {
+  let rounds = if has_cached(t) { 2 } else { 1 };
+  for (_round, columns) in (0..rounds).flat_map(|r| [(r, true), (r, false)]) {
     match obs.map(columns) {
       Err(e) => report_panic(ctx, t, &format!("map({columns})"), &e),
       Ok(None) => {}
